@@ -744,6 +744,8 @@ def run_history(E, mods, pb, history, kw):
             CA.register_consistency_algorithm(CA.CONSISTENCY_ALG_FCTS[0])
         elif h == "split":
             pb.split(2, 0)
+        elif h == "then_split_part0":
+            pass  # handled by the caller: the solver under test is built on the first part of a split of the problem
         elif h == "init_twice":
             pb.init()
         elif h == "sibling_problem":
@@ -806,6 +808,8 @@ def make_history(model, history, cfg=None, D=None):
 
         try:
             pbA = ctx.build(Problem, P)
+            if "then_split_part0" in history:
+                pbA = pbA.split(2, 0)[0]
             sA = BS.BacktrackSolver(pbA, **kw)
             solsA = [s.tolist() for s in sA.solve()]
             statsA = sA.get_statistics()
@@ -817,6 +821,10 @@ def make_history(model, history, cfg=None, D=None):
             pbB = ctx.build(Problem, P)
             snapshot = ([list(x) for x in pbB.shr_domains_lst], list(pbB.dom_indices_lst), list(pbB.dom_offsets_lst), [(list(a), b, list(c)) for a, b, c in pbB.propagators])
             run_history(E, mods, pbB, history, kw)
+            if "then_split_part0" in history:
+                whole = pbB
+                pbB = pbB.split(2, 0)[0]
+                snapshot = ([list(x) for x in pbB.shr_domains_lst], list(pbB.dom_indices_lst), list(pbB.dom_offsets_lst), [(list(a), b, list(c)) for a, b, c in pbB.propagators])
             sB = BS.BacktrackSolver(pbB, **kw)
             solsB = [s.tolist() for s in sB.solve()]
             statsB = sB.get_statistics()
